@@ -3,7 +3,9 @@
 //! Oracle over pairs of real `parser::parse` results (x, x·y):
 //!  (a) parse(x) = Ok(rem, call)  =>  parse(x·y) = Ok(rem·y, same call);
 //!  (b) an Ok consumes at least one byte;
-//!  (c) parse(x) = Err(other than Incomplete) and x ends in '\n'  =>  parse(x·y) is not Ok.
+//!  (c) parse(x) = Err(other than Incomplete) and x ends in '\n'  =>  parse(x·y) is not Ok;
+//!  (d) parse(x) = Incomplete  =>  x does not end in a newline that lies outside every payload
+//!      (judged for x without quote and '#', where no payload can exist).
 //! The enumeration is a DFS over all strings up to length L over the class
 //! alphabet that keeps the verdicts of all prefixes on its stack, so every pair
 //! (x, y) with |x·y| <= L is judged.
@@ -78,6 +80,7 @@ struct Acc {
     err: u64,
     ok_with_call: u64,
     final_err_prefixes: u64,
+    terminated_plain: u64,
     distinct: HashSet<u64>,
 }
 
@@ -128,8 +131,22 @@ fn judge_against_prefixes(acc: &mut Acc, s: &[u8], vs: V, stack: &[V], first: us
                 report(acc, "ok-consumed-nothing", s, s, vs, vs, start_name, iface);
             }
         }
-        V::Incomplete => acc.incomplete += 1,
-        V::Err(_) => acc.err += 1,
+        V::Incomplete => {
+            acc.incomplete += 1;
+            // 'incomplete' only when the input ends inside a unit: a newline outside any string
+            // or block payload terminates the unit, so input that ends in a newline and contains
+            // no quote and no '#' cannot be incomplete
+            if s.last() == Some(&b'\n') && !s.iter().any(|c| matches!(c, b'"' | b'\'' | b'#')) {
+                acc.terminated_plain += 1;
+                report(acc, "incomplete-although-terminated", s, s, vs, vs, start_name, iface);
+            }
+        }
+        V::Err(_) => {
+            acc.err += 1;
+            if s.last() == Some(&b'\n') && !s.iter().any(|c| matches!(c, b'"' | b'\'' | b'#')) {
+                acc.terminated_plain += 1;
+            }
+        }
     }
     for k in first..s.len() {
         let vp = stack[k];
@@ -262,8 +279,10 @@ fn canary(mini: &IfaceDesc) -> Result<(), String> {
     judge_against_prefixes(&mut acc, b"Z\nB\n", V::Ok(4, 7), &[V::Incomplete, V::Incomplete, V::Err(-101), V::Incomplete], 1, "root", mini.name);
     // fabricated: Ok without consuming
     judge_against_prefixes(&mut acc, b"A", V::Ok(0, 0), &[V::Incomplete], 1, "root", mini.name);
-    if acc.res.violation_count != 3 {
-        return Err(format!("C12 canary: oracle rejected {} of 3 fabricated verdict pairs", acc.res.violation_count));
+    // fabricated: plain terminated input declared incomplete
+    judge_against_prefixes(&mut acc, b"A\n", V::Incomplete, &[V::Incomplete, V::Incomplete], 1, "root", mini.name);
+    if acc.res.violation_count != 4 {
+        return Err(format!("C12 canary: oracle rejected {} of 4 fabricated verdict pairs", acc.res.violation_count));
     }
     // and the real parser must be reachable: "A\n" is accepted at the root of mini
     let root = (mini.root)();
